@@ -221,17 +221,22 @@ def run_exec(cmd, cases, per_case_timeout=10.0, label=''):
     it died on, and that case gets the outcome {"abort": ...} / {"hang": true}.  returns {id: answer-object}"""
     answers = {}
     todo = list(cases)
-    guard = 0
+    guard = hangs = 0
     while todo:
         guard += 1
         inp = ''.join(json.dumps({'id': c['id'], 'case': c['case']}) + '\n' for c in todo)
         budget = max(60.0, per_case_timeout * 4 + 0.02 * len(todo))
-        try:
-            p = subprocess.run(cmd, input=inp.encode(), capture_output=True, timeout=budget)
-            lines, rc, timed_out = p.stdout.decode('utf-8', 'replace').splitlines(), p.returncode, False      # an executor may print a non-UTF-8 string it was handed
-        except subprocess.TimeoutExpired as ex:
-            so = ex.stdout.decode('utf-8', 'replace') if isinstance(ex.stdout, bytes) else (ex.stdout or '')
-            lines, rc, timed_out = so.splitlines(), 124, True
+        # stdout goes to a file and stderr nowhere: an executor spinning in a loop that prints must not fill this process's memory
+        import tempfile
+        with tempfile.TemporaryFile(dir=WORK) as so:
+            try:
+                p = subprocess.run(cmd, input=inp.encode(), stdout=so, stderr=subprocess.DEVNULL, timeout=budget)
+                rc, timed_out = p.returncode, False
+            except subprocess.TimeoutExpired:
+                rc, timed_out = 124, True
+            so.seek(0)
+            lines = so.read(1 << 30).decode('utf-8', 'replace').splitlines()      # an executor may print a non-UTF-8 string it was handed
+        hangs += timed_out
         got = 0
         for l in lines:
             try:
@@ -254,6 +259,10 @@ def run_exec(cmd, cases, per_case_timeout=10.0, label=''):
         if guard > 200:
             for c in todo:
                 answers[c['id']] = {'id': c['id'], 'out': {'abort': 'too many executor deaths'}, 'error': 'too many executor deaths'}
+            break
+        if hangs >= 5:          # every hang costs a whole time budget: five are enough to report, the rest of the cases is not run
+            log(f'[{label}] the executor hung on {hangs} cases; the remaining {len(todo)} cases are not run')
+            for c in todo: answers[c['id']] = {'id': c['id'], 'out': None}
             break
     return answers
 
